@@ -6,7 +6,7 @@ From Coq Require Import NArith ZArith List.
 From Carquet Require Import Base.Res Enc.DeltaBits
   Enc.PlainSpec Enc.PlainModel Enc.PlainProofs Enc.BssSpec Enc.BssModel Enc.BssProofs
   Enc.DeltaSpec Enc.DeltaModel Enc.DeltaArith Enc.DeltaProofs Enc.DeltaLenModel Enc.DeltaStrModel Enc.DeltaStrProofs
-  Enc.DictModel Enc.DictProofs.
+  Enc.DictModel Enc.DictProofs Enc.RleModel Enc.DictRleInst.
 Import ListNotations.
 Local Open Scope N_scope.
 
@@ -120,10 +120,41 @@ Proof. exact BssProofs.bss_roundtrip_double. Qed.
 Print Assumptions bss_roundtrip_double.
 
 (* ------------------------------------------------------------------------------------------ C11: dictionary *)
-(* relative to the index-stream codec (carquet_rle_encode_all / carquet_rle_decode_all): any pair with the round-trip
-   property; the RLE engine proves it for Enc/RleModel.v *)
+(* with carquet's own index codec (Enc/RleModel.v through the adapter DictRleInst.rle_enc / rle_dec; hypothesis closed
+   with RleProofs.rle_roundtrip_lemma) *)
+Theorem dict_roundtrip_int32_rle : forall vs, Forall (fun v => v < 2 ^ 32) vs -> len vs < 2 ^ 31 ->
+  let '(d, ixs) := dict_encode_fixed rle_enc 4 vs in
+  dict_decode_fixed rle_dec 4 d (Z.of_N (len d / 4)) ixs (len vs) = Ok vs.
+Proof. exact DictRleInst.dict_roundtrip_int32_rle. Qed.
+Print Assumptions dict_roundtrip_int32_rle.
+
+Theorem dict_roundtrip_int64_rle : forall vs, Forall (fun v => v < 2 ^ 64) vs -> len vs < 2 ^ 31 ->
+  let '(d, ixs) := dict_encode_fixed rle_enc 8 vs in
+  dict_decode_fixed rle_dec 8 d (Z.of_N (len d / 8)) ixs (len vs) = Ok vs.
+Proof. exact DictRleInst.dict_roundtrip_int64_rle. Qed.
+Print Assumptions dict_roundtrip_int64_rle.
+
+Theorem dict_roundtrip_float_rle : forall vs, Forall (fun v => v < 2 ^ 32) vs -> len vs < 2 ^ 31 ->
+  let '(d, ixs) := dict_encode_fixed rle_enc 4 vs in
+  dict_decode_fixed rle_dec 4 d (Z.of_N (len d / 4)) ixs (len vs) = Ok vs.
+Proof. exact DictRleInst.dict_roundtrip_float_rle. Qed.
+Print Assumptions dict_roundtrip_float_rle.
+
+Theorem dict_roundtrip_double_rle : forall vs, Forall (fun v => v < 2 ^ 64) vs -> len vs < 2 ^ 31 ->
+  let '(d, ixs) := dict_encode_fixed rle_enc 8 vs in
+  dict_decode_fixed rle_dec 8 d (Z.of_N (len d / 8)) ixs (len vs) = Ok vs.
+Proof. exact DictRleInst.dict_roundtrip_double_rle. Qed.
+Print Assumptions dict_roundtrip_double_rle.
+
+Theorem dict_roundtrip_fixed_rle : forall k vs, (0 < k)%nat -> Forall (fun v => v < 256 ^ N.of_nat k) vs -> len vs < 2 ^ 31 ->
+  let '(d, ixs) := dict_encode_fixed rle_enc k vs in
+  dict_decode_fixed rle_dec k d (Z.of_N (len d / N.of_nat k)) ixs (len vs) = Ok vs.
+Proof. exact DictRleInst.dict_roundtrip_fixed_rle. Qed.
+Print Assumptions dict_roundtrip_fixed_rle.
+
+(* the same relative to ANY index-stream codec with the round-trip property *)
 Theorem dict_roundtrip_fixed : forall (rle_encode : N -> list N -> list N) (rle_decode : N -> list N -> N -> res (list N)),
-  (forall w ix, w <= 32 -> Forall (fun i => i < 2 ^ w) ix -> rle_decode w (rle_encode w ix) (len ix) = Ok ix) ->
+  (forall w ix, w <= 32 -> Forall (fun i => i < 2 ^ w) ix -> len ix < 2 ^ 31 -> rle_decode w (rle_encode w ix) (len ix) = Ok ix) ->
   forall k vs, (0 < k)%nat -> Forall (fun v => v < 256 ^ N.of_nat k) vs -> len vs < 2 ^ 31 ->
   let '(d, ixs) := dict_encode_fixed rle_encode k vs in
   dict_decode_fixed rle_decode k d (Z.of_N (len d / N.of_nat k)) ixs (len vs) = Ok vs.
@@ -131,7 +162,7 @@ Proof. exact DictProofs.dict_roundtrip_fixed. Qed.
 Print Assumptions dict_roundtrip_fixed.
 
 Theorem dict_roundtrip_int32 : forall (rle_encode : N -> list N -> list N) (rle_decode : N -> list N -> N -> res (list N)),
-  (forall w ix, w <= 32 -> Forall (fun i => i < 2 ^ w) ix -> rle_decode w (rle_encode w ix) (len ix) = Ok ix) ->
+  (forall w ix, w <= 32 -> Forall (fun i => i < 2 ^ w) ix -> len ix < 2 ^ 31 -> rle_decode w (rle_encode w ix) (len ix) = Ok ix) ->
   forall vs, Forall (fun v => v < 2 ^ 32) vs -> len vs < 2 ^ 31 ->
   let '(d, ixs) := dict_encode_fixed rle_encode 4 vs in
   dict_decode_fixed rle_decode 4 d (Z.of_N (len d / 4)) ixs (len vs) = Ok vs.
@@ -139,7 +170,7 @@ Proof. exact DictProofs.dict_roundtrip_int32. Qed.
 Print Assumptions dict_roundtrip_int32.
 
 Theorem dict_roundtrip_int64 : forall (rle_encode : N -> list N -> list N) (rle_decode : N -> list N -> N -> res (list N)),
-  (forall w ix, w <= 32 -> Forall (fun i => i < 2 ^ w) ix -> rle_decode w (rle_encode w ix) (len ix) = Ok ix) ->
+  (forall w ix, w <= 32 -> Forall (fun i => i < 2 ^ w) ix -> len ix < 2 ^ 31 -> rle_decode w (rle_encode w ix) (len ix) = Ok ix) ->
   forall vs, Forall (fun v => v < 2 ^ 64) vs -> len vs < 2 ^ 31 ->
   let '(d, ixs) := dict_encode_fixed rle_encode 8 vs in
   dict_decode_fixed rle_decode 8 d (Z.of_N (len d / 8)) ixs (len vs) = Ok vs.
@@ -147,7 +178,7 @@ Proof. exact DictProofs.dict_roundtrip_int64. Qed.
 Print Assumptions dict_roundtrip_int64.
 
 Theorem dict_roundtrip_float : forall (rle_encode : N -> list N -> list N) (rle_decode : N -> list N -> N -> res (list N)),
-  (forall w ix, w <= 32 -> Forall (fun i => i < 2 ^ w) ix -> rle_decode w (rle_encode w ix) (len ix) = Ok ix) ->
+  (forall w ix, w <= 32 -> Forall (fun i => i < 2 ^ w) ix -> len ix < 2 ^ 31 -> rle_decode w (rle_encode w ix) (len ix) = Ok ix) ->
   forall vs, Forall (fun v => v < 2 ^ 32) vs -> len vs < 2 ^ 31 ->
   let '(d, ixs) := dict_encode_fixed rle_encode 4 vs in
   dict_decode_fixed rle_decode 4 d (Z.of_N (len d / 4)) ixs (len vs) = Ok vs.
@@ -155,7 +186,7 @@ Proof. exact DictProofs.dict_roundtrip_float. Qed.
 Print Assumptions dict_roundtrip_float.
 
 Theorem dict_roundtrip_double : forall (rle_encode : N -> list N -> list N) (rle_decode : N -> list N -> N -> res (list N)),
-  (forall w ix, w <= 32 -> Forall (fun i => i < 2 ^ w) ix -> rle_decode w (rle_encode w ix) (len ix) = Ok ix) ->
+  (forall w ix, w <= 32 -> Forall (fun i => i < 2 ^ w) ix -> len ix < 2 ^ 31 -> rle_decode w (rle_encode w ix) (len ix) = Ok ix) ->
   forall vs, Forall (fun v => v < 2 ^ 64) vs -> len vs < 2 ^ 31 ->
   let '(d, ixs) := dict_encode_fixed rle_encode 8 vs in
   dict_decode_fixed rle_decode 8 d (Z.of_N (len d / 8)) ixs (len vs) = Ok vs.
@@ -192,6 +223,29 @@ Theorem plain_byte_array_decode_accepts : forall n bs vs rest, spec_ba_dec n bs 
   plain_decode_byte_array bs (N.of_nat n) = Ok (vs, len bs - len rest).
 Proof. exact PlainProofs.plain_byte_array_decode_accepts. Qed.
 Print Assumptions plain_byte_array_decode_accepts.
+
+Theorem plain_boolean_encode_conforms : forall vs, len vs < 2 ^ 63 ->
+  spec_bool_dec (length vs) (plain_encode_boolean vs) = Some (map truth vs, []).
+Proof. exact PlainProofs.plain_boolean_encode_conforms. Qed.
+Print Assumptions plain_boolean_encode_conforms.
+
+Theorem plain_boolean_decode_accepts : forall n bs vs rest, N.of_nat n < 2 ^ 63 -> spec_bool_dec n bs = Some (vs, rest) ->
+  plain_decode_boolean bs (N.of_nat n) = Ok (vs, (N.of_nat n + 7) / 8) /\ len bs = (N.of_nat n + 7) / 8 + len rest.
+Proof. exact PlainProofs.plain_boolean_decode_accepts. Qed.
+Print Assumptions plain_boolean_decode_accepts.
+
+(* ------------------------------------------------------------------------------------------ C12: BYTE_STREAM_SPLIT *)
+(* values as rows of k bytes: the model encoder writes exactly the K streams of the specification, and the model decoder
+   returns the rows the specification decoder returns *)
+Theorem bss_encode_eq_spec : forall k (vs : list (list N)), Forall (fun v => length v = k) vs ->
+  bss_gather k (length vs) (concat vs) = Ok (spec_bss_enc k vs).
+Proof. exact BssProofs.bss_encode_eq_spec. Qed.
+Print Assumptions bss_encode_eq_spec.
+
+Theorem bss_decode_accepts : forall k count data rows, spec_bss_dec k count data = Some rows ->
+  bss_scatter k count data = Ok (concat rows).
+Proof. exact BssProofs.bss_decode_accepts. Qed.
+Print Assumptions bss_decode_accepts.
 
 (* ------------------------------------------------------------------------------------------ C12: DELTA_BINARY_PACKED *)
 Theorem delta64_encode_conforms : forall vs, vs <> [] -> Forall DeltaProofs.u64v vs -> len vs < W64 ->
@@ -238,6 +292,22 @@ Theorem delta_length_decode_accepts : forall bs vs rest, bytes bs -> vs <> [] ->
   delta_length_decode bs (len vs) = Ok (vs, len bs - len rest).
 Proof. exact DeltaStrProofs.delta_length_decode_accepts. Qed.
 Print Assumptions delta_length_decode_accepts.
+
+(* ------------------------------------------------------------------------------------------ C12: DELTA_BYTE_ARRAY *)
+Theorem delta_strings_encode_conforms : forall vs bs, vs <> [] -> Forall str_ok vs -> len vs < 2 ^ 31 ->
+  delta_strings_encode vs = Ok bs -> spec_delta_strings_decode bs = Some (vs, []).
+Proof. exact DeltaStrProofs.delta_strings_encode_conforms. Qed.
+Print Assumptions delta_strings_encode_conforms.
+
+(* any legal prefix lengths (not only the longest common prefix), both length streams at geometry 128/4 *)
+Theorem delta_strings_decode_accepts : forall bs vs rest work_cap, bytes bs -> vs <> [] -> len vs < 2 ^ 31 ->
+  Forall (fun s => len s < 2 ^ 31) vs -> len (concat vs) <= work_cap ->
+  spec_delta_strings_decode bs = Some (vs, rest) ->
+  (exists st1 st2, spec_delta_decode 32 bs = Some st1 /\ ds_block st1 = 128 /\ ds_minis st1 = 4 /\
+                   spec_delta_decode 32 (ds_rest st1) = Some st2 /\ ds_block st2 = 128 /\ ds_minis st2 = 4) ->
+  delta_strings_decode bs (len vs) work_cap = Ok (vs, len bs - len rest).
+Proof. exact DeltaStrProofs.delta_strings_decode_accepts. Qed.
+Print Assumptions delta_strings_decode_accepts.
 
 (* ------------------------------------------------------------------------------------------ C08: never-fault *)
 Theorem plain_fixed_never_faults : forall k bs count f, dec_fixed k bs count <> Fault f.
@@ -323,3 +393,10 @@ Theorem dict_decode_result_size : forall (rle_decode : N -> list N -> N -> res (
   forall k dict dc indices out_count vs, dict_decode_fixed rle_decode k dict dc indices out_count = Ok vs -> len vs <= out_count.
 Proof. exact DictProofs.dict_decode_result_size. Qed.
 Print Assumptions dict_decode_result_size.
+
+(* with carquet's own index decoder, given that it returns at most max_values values on arbitrary bytes (RLE / C08 engine) *)
+Theorem dict_decode_never_faults_rle :
+  (forall w bs max, (length (RleModel.decode_all w bs max) <= max)%nat) ->
+  forall k dict dc indices out_count f, dict_decode_fixed rle_dec k dict dc indices out_count <> Fault f.
+Proof. exact DictRleInst.dict_decode_never_faults_rle. Qed.
+Print Assumptions dict_decode_never_faults_rle.
